@@ -4,7 +4,7 @@
    write(2); named outputs go through a std::ofstream whose state nobody checks.  For descriptor outputs the detection half of
    the property is proved; for named outputs and for recovery under persistent failure the property is REFUTED on the faithful
    model - these are genuine defects of CZ-NIC/c-dns recorded as known findings (known_findings.json).  Only statements here. *)
-Require Import Base Writer WriterProofs.
+Require Import Base Cbor EncoderModel DecoderModel Schema Block Exporter Writer WriterProofs BlockRead FileProofs ExporterIO ExporterFaults ExporterFaultsProofs.
 Local Open Scope N_scope.
 
 (* descriptor outputs: over every history of writes and rotations and every byte budget per output, an output that lost bytes
@@ -50,6 +50,74 @@ Proof.
   unfold fd_write. assert (N.of_nat (length (b :: r)) <=? room cur = false) as -> by lia. eexists. split; reflexivity.
 Qed.
 Print Assumptions C16_recover_persistent_refuted.
+
+(* ---------- the same for whole EXPORTER histories (coq/ExporterFaults.v: every API call of an exporter on a descriptor, the operating system
+   answering the successive write(2) calls of the scenario as it likes - accept, cut short, reject, once or from some point on; compared call by
+   call with the real stack under fault injection) ---------- *)
+
+(* reported: over every history and every behaviour of the operating system, an output that a rotation closed (returning normally) and that
+   lost bytes had an API call that threw while it was open - rotate_output never returns for a lossy output whose loss was not reported *)
+Theorem C16_exporter_reported : forall pre plan ops,
+  let s := fst (frun (fx_new pre plan) ops) in
+  (d_lost (f_cur s) = true -> f_threw s = true) /\ Forall (fun ot => d_lost (fst ot) = true -> snd ot = true) (f_closed s).
+Proof. exact faults_reported. Qed.
+Print Assumptions C16_exporter_reported.
+
+(* retained: an exception out of a buffering call or write_block() leaves the block - with the record just submitted - buffered, counts
+   nothing as written and closes nothing; only the staging buffer differs *)
+Theorem C16_exporter_retains : forall s o s1 n, (forall e, o <> XRot e) -> fstep s o = (s1, Threw, n) ->
+  exists ef, f_x s1 = set_enc (pre_write (f_x s) o) ef /\ f_threw s1 = true /\ f_closed s1 = f_closed s.
+Proof. exact fault_retains. Qed.
+Print Assumptions C16_exporter_retains.
+Theorem C16_exporter_retains_rotation : forall s e s1 n, fstep s (XRot e) = (s1, Threw, n) ->
+  f_closed s1 = f_closed s /\ f_threw s1 = true /\
+  exists ef, f_x s1 = set_enc (f_x s) ef \/ (e = true /\ f_x s1 = set_enc (fst (write_block (f_x s))) ef).
+Proof. exact fault_retains_rotation. Qed.
+Print Assumptions C16_exporter_retains_rotation.
+
+(* recovery after a transient failure: the call threw, the operating system accepts everything from then on. rotate_output(healthy
+   destination, false) returns normally, the following write_block() returns normally, and the new output - closed by destruction - holds,
+   with nothing lost, exactly the complete C-DNS file of the failed block, which the reader reads back *)
+Theorem C16_exporter_recovers : forall s o s1 n, (forall e, o <> XRot e) -> fstep s o = (s1, Threw, n) -> healthy (f_os s1) ->
+  let b := x_blk (pre_write (f_x s) o) in
+  let pre := preamble_val (f_x s) in
+  typed_pre pre -> typed_blk b -> blk_params_ok (params_of pre) b -> good_blk b ->
+  exists s2 r2 s3 r3,
+    fstep s1 (XRot false) = (s2, Done, r2) /\ x_blk (f_x s2) = b /\ f_cur s2 = dout_new /\
+    fstep s2 XWb = (s3, Done, r3) /\
+    fdestroy s3 = mkDout (file_bytes pre [b]) (file_bytes pre [b]) /\
+    forall g, (length (file_bytes pre [b]) <= g)%nat -> run (read_file g) (file_bytes pre [b]) = (inl (pre, [rb_of b]), []).
+Proof.
+  intros s o s1 n Hn H Hh b pre Tp Tb Pb Gb.
+  destruct (recovery_after_fault s o s1 n Hn H Hh Tp Tb) as (s2 & r2 & s3 & r3 & H1 & H2 & H3 & H4 & H5).
+  exists s2, r2, s3, r3. repeat (split; [assumption|]).
+  intros g Hg. apply (read_file_spec pre [b] g Tp); [discriminate| |exact Hg].
+  constructor; [|constructor]. split; [exact Tb|split; [exact Pb|exact Gb]].
+Qed.
+Print Assumptions C16_exporter_recovers.
+
+(* KNOWN FINDING (persistent-failure-no-recovery) for exporter histories: while the operating system rejects every write and something is
+   staged, rotate_output throws whatever the destination - the staged bytes go to the OLD output first - and leaves everything as it was *)
+Theorem C16_exporter_persistent_refuted : forall s, os_plan (f_os s) = [] -> os_rest (f_os s) = Some 0 -> buf (x_enc (f_x s)) <> [] ->
+  exists s1, fstep s (XRot false) = (s1, Threw, 0) /\ f_closed s1 = f_closed s /\ os_plan (f_os s1) = [] /\ os_rest (f_os s1) = Some 0 /\
+             buf (x_enc (f_x s1)) <> [] /\ x_blk (f_x s1) = x_blk (f_x s).
+Proof. exact persistent_failure_no_recovery. Qed.
+Print Assumptions C16_exporter_persistent_refuted.
+
+(* non-vacuity: a record with a 3000-byte name (its block spans two staging buffers); the first write(2) of the scenario is rejected once:
+   write_block() throws, the rotation and the second write_block() return, one output is closed with the loss reported, and the recovery
+   output is a complete file of one block with nothing lost.  (With a block smaller than the staging buffer the first write(2) only happens
+   in rotate_output, which is then the call that throws.) *)
+Example C16_exporter_nonvacuous :
+  let pre := VR [Some (VN 1); Some (VN 0); None; Some (VL [VR [Some (VR [Some (VN 1000); Some (VN 10);
+                 Some (VR [Some (VN 262143); Some (VN 131071); Some (VN 3); Some (VN 3)]); Some (VL []); Some (VL []);
+                 None; None; None; None; None; None; None]); None]])] in
+  let q := XQr ([Some (VL [VN 5; VN 1]); None; Some (VN 53)] ++ repeat None 20 ++ [Some (VS (repeat 97 3000%nat))]) None in
+  let '(s, ocs) := frun (fx_new pre (mkOs [Some 0] None)) [q; XWb; XRot false; XWb] in
+  ocs = [(Done, 0); (Threw, 0); (Done, 0); (Done, 3072)] /\ map snd (f_closed s) = [true] /\
+  length (d_stored (fdestroy s)) = 3073%nat /\ d_lost (fdestroy s) = false /\
+  (match fst (run (read_file 5000) (d_stored (fdestroy s))) with inl (_, bs) => length bs | _ => 99%nat end) = 1%nat.
+Proof. vm_compute. repeat split. Qed.
 
 Example C16_nonvacuous :
   let '(closed, last, ocs) := fd_calls (fout_new 4) [CWrite [1; 2; 3]; CWrite [4; 5; 6]; CRotate 100; CWrite [7]] in
